@@ -47,6 +47,9 @@ CONSTANTS DevChoices         \* subset of BOOLEAN: the initial state picks DevLo
                              \* one TLC run covers the model with and without the deviation
 CONSTANTS DevRefork,         \* TRUE: a job re-entering after waiting for limits pre-processes its arguments
                              \* again and forks its handle a second time (redun as pinned; fixed)
+          DevDoubleRelease,  \* TRUE: a job whose function finished (units released at Done) and whose
+                             \* result evaluation then fails releases its units again in Reject
+                             \* (redun as pinned; fixed)
           DevForkAtExec      \* TRUE (as built): a handle's fork key is the number of handle uses of the
                              \* parent *at the time the job first executes*, which depends on when its
                              \* other arguments resolve; FALSE: the key is positional
@@ -87,6 +90,7 @@ Parent(j) == SubSeq(j, 1, Len(j) - 1)
 NewJob(t, arg, ph) ==
   [t |-> t, arg |-> arg, ph |-> ph, cached |-> "no", res |-> 0, tw |-> <<>>, failed |-> FALSE,
    nom |-> FALSE,   \* nom: nominated from the limits queue by _check_jobs_pending_limits
+   held |-> FALSE,  \* the job currently holds the units of its limits (consumed, not yet released)
    fk |-> 0,        \* fork key of the handle argument (0: the task takes no handle / not yet forked)
    nf |-> 0]        \* handle_forks counter of this job as a parent
 \* phases: argwait (an argument is still a pending expression), execq (exec event queued),
@@ -121,8 +125,10 @@ Renom(ws, u, ready, rest) ==
 Release(j, u) == [r \in Res |-> u[r] - Units(jobs[j].t, r)]
 ExecEvs(s) == [i \in 1..Len(s) |-> [ty |-> "exec", j |-> s[i]]]
 
-(* a job that holds units releases them and renominates; served jobs (cached / collapsed) do not *)
-HoldsUnits(j) == jobs[j].cached = "no"
+(* a job that holds units releases them and renominates; served jobs (cached / collapsed) do not.
+   As pinned, redun decided this by "was not cached" alone, which is also true of a job that already
+   released its units when its function finished (DevDoubleRelease). *)
+HoldsUnits(j) == IF DevDoubleRelease THEN jobs[j].cached = "no" ELSE jobs[j].held
 
 CacheAllowed == useCache     \* cache=False downgrades cache_scope to CSE
 
@@ -177,7 +183,7 @@ Exec(j) ==
        /\ evq' = Tail(evq)
        /\ UNCHANGED <<running, pend, used, cse, wf, rootval, submitted, evalTab>>
   ELSE                                                                \* Submit
-       /\ jobs' = [J EXCEPT ![j].ph = "running"]
+       /\ jobs' = [J EXCEPT ![j].ph = "running", ![j].held = TRUE]
        /\ used' = [r \in Res |-> used[r] + Units(t, r)]
        /\ running' = running \cup {j} /\ pend' = (k :> j) @@ pend
        /\ submitted' = Append(submitted, k)
@@ -221,7 +227,7 @@ Done(j) ==
       argOf(idx) == IF spec(idx).k = "c" THEN spec(idx).v
                     ELSE IF spec(idx).k = "p" THEN parg + spec(idx).v ELSE 0
       jobs1 == [jj \in DOMAIN jobs |->
-                  IF jj = j THEN [jobs[jj] EXCEPT !.ph = IF nd = 0 THEN "resolveq" ELSE "evalwait"]
+                  IF jj = j THEN [jobs[jj] EXCEPT !.ph = IF nd = 0 THEN "resolveq" ELSE "evalwait", !.held = FALSE]
                   ELSE IF InSeq(jj, ready) THEN [jobs[jj] EXCEPT !.ph = "execq", !.nom = TRUE] ELSE jobs[jj]]
       jobs2 == [k \in {Append(j, idx) : idx \in 1..nd} |->
                   NewJob(spec(k[Len(k)]).t, argOf(k[Len(k)]),
@@ -291,7 +297,7 @@ Reject(j) ==
                             LAMBDA p : p # <<0>>)
       jobs1 == [jj \in DOMAIN jobs |->
                  IF InSeq(jj, failing)
-                 THEN [jobs[jj] EXCEPT !.ph = "rejected",
+                 THEN [jobs[jj] EXCEPT !.ph = "rejected", !.held = FALSE,
                                        !.cached = IF jj = j THEN jobs[j].cached ELSE "cse"]
                  ELSE IF InSeq(jj, ready) THEN [jobs[jj] EXCEPT !.ph = "execq", !.nom = TRUE]
                  ELSE IF InSeq(jj, uniqPars) THEN [jobs[jj] EXCEPT !.failed = TRUE]
@@ -355,7 +361,7 @@ FairSpec == Spec /\ WF_vars(Step) /\ WF_vars(NextRun)
 (***************************************************************************)
 (* Properties                                                              *)
 (***************************************************************************)
-Holding == running \cup {j \in DOMAIN jobs : jobs[j].ph = "doneq" /\ jobs[j].cached = "no"}
+Holding == {j \in DOMAIN jobs : jobs[j].held}
 \* C08: used is exactly what submitted-and-unreported jobs hold, and never exceeds the limit
 HeldOK == \A r \in Res :
             /\ used[r] <= Limit(r)
